@@ -501,6 +501,35 @@ def run(ck):
             unconditional_in(pe, lp[0].body, app[0])
     ck.ob('DT-prefix-order', ff.loc(pe), ok, 'an [ edges ] line joins the two normalised keys (prefix from the written prefix or from the order attribute); a [ non-edges ] line '
           'records the normalised key of the first atom and the attributes of the second', key='DT-prefix-order|edges-use-normalised-keys')
+    # ------------------------------------------------------------- macros: substituted in every section line before it is dispatched
+    ps = ck.need(method(slp, 'parse_section'), 'SectionLineParser.parse_section vanished')
+    ck.analysed(pu, ps)
+    subs = [(st_, c_) for st_, c_, e_ in stmts_with_env(ps, lambda s_: isinstance(s_, ast.Assign) and call_name(s_.value) == '_substitute_macros')]
+    disp = calls_with_env(ps, lambda c: isinstance(c.func, ast.Name) and c.func.id == 'method')
+    ok = len(subs) == 1 and flow.valid(subs[0][1]) and [u(a) for a in subs[0][0].value.args] == ['line', 'self.macros'] and u(subs[0][0].targets[0]) == 'line' and \
+        len(disp) == 1 and u(disp[0][0].args[1]) == 'line' and subs[0][0].lineno < disp[0][1].lineno
+    overriders = [(m_.rel, q_) for m_, q_, f_ in idx.all_functions() if q_.endswith('.parse_section') and not (m_ is pu and q_ == 'SectionLineParser.parse_section')]
+    ck.ob('PROV-macros', pu.loc(ps), ok and not overriders, 'every section line has its macros substituted (from the parser\'s macro table) before it is handed to the section method; '
+          'no subclass overrides parse_section ({})'.format(overriders), key='PROV-macros|substitute-before-dispatch')
+    pmac = pu.func('_parse_macro')
+    ck.analysed(pu, pmac)
+    src = u(pmac)
+    st_store = [s_ for s_ in walk_local(pmac) if isinstance(s_, ast.Assign) and isinstance(s_.targets[0], ast.Subscript) and u(s_.targets[0].value) == 'macros']
+    rz = [flow.show(c_) for s_, c_, e_ in raise_conditions(pmac)]
+    ok = len(st_store) == 1 and u(st_store[0]) == 'macros[macro_name] = macro_value' and 'macro_name = tokens.popleft()' in src and 'macro_value = tokens.popleft()' in src and \
+        src.index('macro_name = tokens.popleft()') < src.index('macro_value = tokens.popleft()') and len(rz) == 2
+    ck.ob('PROV-macros', pu.loc(pmac), ok, 'a macro definition stores the second token under the first, verbatim; any other number of columns is an error', key='PROV-macros|definition')
+    resets = [(m_.rel, q_) for m_, q_, f_ in idx.all_functions() if m_.rel in (FF, ITP, PU, MAP) and not q_.endswith('__init__') and not q_.endswith('.finalize')
+              for s_ in walk_local(f_) if isinstance(s_, (ast.Assign, ast.AugAssign)) and any(u(t_) == 'self.macros' for t_ in (s_.targets if isinstance(s_, ast.Assign) else [s_.target]))]
+    ck.ob('PROV-macros', PU, not resets, 'the macro table is created once per parser and replaced only by finalize() after the last line (macros defined in one section stay available in all later ones): {}'.format(resets),
+          key='PROV-macros|persist')
+    sm = pu.func('_substitute_macros')
+    ck.analysed(pu, sm)
+    lk = [n for n in walk_local(sm) if isinstance(n, ast.Subscript) and u(n.value) == 'macros' and isinstance(n.ctx, ast.Load)]
+    ok = len(lk) == 1 and u(lk[0].slice) == 'macro_name' and 'macro_name = line[start + 1:end]' in u(sm) and 'line = line[:start] + macro_value + line[end:]' in u(sm) and \
+        not any(isinstance(h, ast.ExceptHandler) for h in ast.walk(sm)) and "' \\t\\n{}$\"'" in u(sm)
+    ck.ob('PROV-macros', pu.loc(sm), ok, 'a "$name" (name ends at white space, a brace, a quote or the next "$") is replaced in place by the stored value; an undefined macro is a KeyError, '
+          'not silently kept', key='PROV-macros|substitution')
     prefix_order_table(ck, ff)
     shared.truthy_zero(ck, [FF, ITP, PU, MAP, 'vermouth/map_input.py'])
     ck.assume('token-level grammar, macro substitution results and .map weight arithmetic are not decided')
